@@ -401,6 +401,12 @@ func Run(st Store, h History) (*Violation, Stats, error) {
 }
 
 // Shrink minimises a failing history (same violation class), re-executing every candidate.
+// StepShrinker is implemented by stores that can propose smaller variants of one step (fewer list
+// elements); the shrinker keeps a variant when the same violation class persists.
+type StepShrinker interface {
+	ShrinkStep(s Step) []Step
+}
+
 func Shrink(st Store, h History, class string, budget int) History {
 	valid := func(c History) bool {
 		m, err := initialModelOf(st, c.Doc)
@@ -437,6 +443,23 @@ func Shrink(st Store, h History, class string, budget int) History {
 			if fails(c) {
 				h = c
 				changed = true
+			}
+		}
+	}
+	// shrink step arguments (stores that can propose smaller variants of a step)
+	if sh, ok := st.(StepShrinker); ok {
+		for changed := true; changed; {
+			changed = false
+			for i := len(h.Steps) - 1; i >= 0; i-- {
+				for _, smaller := range sh.ShrinkStep(h.Steps[i]) {
+					c := History{Doc: h.Doc, MapSalt: h.MapSalt, Steps: append([]Step{}, h.Steps...)}
+					c.Steps[i] = smaller
+					if fails(c) {
+						h = c
+						changed = true
+						break
+					}
+				}
 			}
 		}
 	}
